@@ -364,15 +364,22 @@ class TS:
         self.pa = Prov(model, "alias")
         self.maxdepth = maxdepth
         self.budget = budget
-        self.events_of_interest = self.sm.reaches({Q_SET_STATE, Q_SET_ERR, Q_EMIT_TASK, Q_EMIT_EVENT, Q_UPSERT, Q_PUSH,
-                                                   Q_SCHED, Q_IS_READY, Q_CTX_SET_TASK})
+        self.base_interest = {Q_SET_STATE, Q_SET_ERR, Q_EMIT_TASK, Q_EMIT_EVENT, Q_UPSERT, Q_PUSH, Q_SCHED, Q_IS_READY, Q_CTX_SET_TASK}
+        self.events_of_interest = self.sm.reaches(self.base_interest)
         self.stats = {"configs": 0, "runs": 0, "inlined": set(), "havocs": set()}
         self.profile = None
         self.branch_adts = ()       # ADT name suffixes whose undecided `match` emits BRANCH events
         self.effect_callees = None  # regex: calls reported as ("EFFECT", q, fn, block)
+        self.no_inline = set()      # callees never inlined (reported as EFFECT / skipped instead)
         self.on_task = self._find_on_task()
         self._hook_effect = {}
         self._self_only = {}
+
+    def set_effects(self, regex, callees=()):
+        """report calls matching `regex` as EFFECT events; functions reaching `callees` become worth inlining"""
+        self.effect_callees = regex
+        self.events_of_interest = self.sm.reaches(self.base_interest | set(callees))
+        self._hook_effect = {}
 
     def _find_on_task(self):
         """the closure registered with Scheduler::on_task: it runs synchronously inside every
@@ -688,7 +695,7 @@ class TS:
                 v = env.get(r[2])
                 if v is not None and v[0] == "ST":
                     setf(("B", self.T[STATE_PRED.match(q).group(1)][v[1]]))
-        elif re.search(r"PartialEq.*>::(eq|ne)$", q) and len(args) == 2:
+        elif re.search(r"PartialEq.*::(eq|ne)$", q) and len(args) == 2:
             vs = []
             for a in args:
                 r = self.pa.root(fn, a)
@@ -762,7 +769,7 @@ class TS:
         elif q == Q_SCHED:
             ev = ("SCHED", fn.q, b, self._sched_kind(fn, args))
         elif self.effect_callees is not None and self.effect_callees.search(q):
-            ev = ("EFFECT", q, fn.q, b)
+            ev = ("EFFECT", q, fn.q, b, bool(args and self.task_tracked(fr, args[0], env)))
         elif TRY_BRANCH.search(q) and args:
             r = self.pa.root(fn, args[0])
             v = None
@@ -810,6 +817,16 @@ class TS:
                     push(nxt, s=s2, cok=cok2, mon=mon2, env=env2, ev=ev)
                 return
 
+        # ---- closures passed to for_each: zero or more runs (explored as: skip, or run once) -------
+        if re.search(r"Iterator::for_each$|Option::<T>::map$|Option::<T>::inspect$", q) and len(args) == 2:
+            rc = self.pa.root(fn, args[1])
+            if rc[0] == "closure" and rc[1] in self.m.fns and rc[1] in self.events_of_interest and depth < self.maxdepth:
+                cf = self.m.fns[rc[1]]
+                fr2 = self._closure_frame(fr, fn, rc, cf, env, nxt, b, env2)
+                if fr2.tup or fr2.cup:
+                    push(0, s=s2, cok=cok2, mon=mon2, env={}, frames=frames + (fr2,), ev=ev)
+                    push(nxt, s=s2, cok=cok2, mon=mon2, env=env2, ev=ev)
+                    return
         # ---- inlining ------------------------------------------------------------------------
         targets = []
         if q in self.m.fns:
@@ -821,7 +838,7 @@ class TS:
             pass
         # emitting *another* task is decided at the call site, where that task's state is visible
         skip_inline = (q == Q_EMIT_TASK and ev is not None and ev[0] == "EMIT_OTHER")
-        if q not in NEVER_INLINE and targets and depth < self.maxdepth and not skip_inline:
+        if q not in NEVER_INLINE and q not in self.no_inline and targets and depth < self.maxdepth and not skip_inline:
             tp = set()
             cp = set()
             for i, a in enumerate(args):
@@ -843,7 +860,7 @@ class TS:
                     cf = self.m.fns[tq]
                     if tq not in self.events_of_interest:
                         continue
-                    if any(f.fn.q == tq for f in frames):
+                    if sum(1 for f in frames if f.fn.q == tq) >= (2 if len(frames) > 4 and any(f.fn.q == self.on_task.q for f in frames) else 1):
                         continue  # recursion: handled by havoc below
                     inlined = True
                     self.stats["inlined"].add(tq)
@@ -879,7 +896,8 @@ class TS:
                 self.stats.setdefault("H_used", set()).add((fn.q, b))
         # ---- emit_task_event runs the on_task handler synchronously --------------------------------
         if q == Q_EMIT_EVENT and ev is not None and ev[0] == "EMIT_EVENT" and depth < self.maxdepth + 3:
-            if not any(f.fn.q == self.on_task.q for f in frames):
+            # the handler may nest (a hook that revives the task and reviews it emits again): two levels
+            if sum(1 for f in frames if f.fn.q == self.on_task.q) < 2:
                 fr2 = Frame(self.on_task, (2,), (), retblk=nxt, callblk=b, saved=tuple(sorted(env2.items(), key=repr)), life=None)
                 push(0, s=s2, cok=cok2, mon=mon2, env={}, frames=frames + (fr2,), ev=ev)
                 return
